@@ -243,9 +243,11 @@ fn replace_chunk(file: &[u8], cc: &[u8; 4], f: impl Fn(&[u8]) -> Vec<u8>) -> Vec
 
 fn files(rng: &mut Rng, tier: &str) -> Vec<corpus::Item> {
     let quick = tier == "quick";
-    let side = if quick { 32 } else { 64 };
-    let mut v = corpus::generated_stills(rng, if quick { 24 } else { 120 }, side);
-    v.extend(corpus::generated_filtered_alpha_stills(rng, if quick { 4 } else { 16 }, side));
+    // sizes chosen so that the extracted model (about 100 us per pixel and run, times every fault index) finishes the thorough tier in
+    // about ten minutes on 16 shards
+    let side = if quick { 32 } else { 40 };
+    let mut v = corpus::generated_stills(rng, if quick { 24 } else { 48 }, side);
+    v.extend(corpus::generated_filtered_alpha_stills(rng, if quick { 4 } else { 8 }, side));
     // lossy + ALPH re-muxed in the other chunk order and with extra chunks; lossy / lossless inside VP8X without alpha
     let base: Vec<(String, Vec<u8>, &'static str)> = v.iter().map(|i| (i.name.clone(), i.bytes.clone(), i.kind)).collect();
     for (name, bytes, kind) in base.iter() {
@@ -271,7 +273,7 @@ fn files(rng: &mut Rng, tier: &str) -> Vec<corpus::Item> {
         }
     }
     // multi-partition lossy stills (token partitions 2, 4, 8): the sized-partition reads of init_partitions
-    for i in 0..(if quick { 4 } else { 16 }) {
+    for i in 0..(if quick { 4 } else { 8 }) {
         let w = rng.range(8, side as u64) as u32;
         let h = rng.range(8, side as u64) as u32;
         let img = corpus::synth_rgba(rng, w, h, [0u64, 1, 4][i % 3], 0);
@@ -313,7 +315,7 @@ fn gen(cx: &mut Ctx, rng: &mut Rng, tier: &str) {
         if parse_chunks(&it.bytes).iter().any(|c| &c.0 == b"ANMF" || &c.0 == b"ANIM") { continue; }
         let data = Rc::new(it.bytes.clone());
         let lossless = parse_chunks(&it.bytes).iter().any(|c| &c.0 == b"VP8L");
-        let cap = if lossless { if quick { 24 } else { 60 } } else if quick { 150 } else { 400 };
+        let cap = if lossless { if quick { 24 } else { 40 } } else if quick { 150 } else { 200 };
         let fill = *rng.pick(&[0u8, 0x5a, 0xff]);
         let mut scheds = vec![Sched::Whole, Sched::Const(*rng.pick(&[1u64, 2, 3, 7, 8, 9, 31, 32, 33, 64])), Sched::Hash(rng.below(1000))];
         if !quick { scheds.push(Sched::Const(1)); scheds.push(Sched::List(vec![rng.range(1, 40), rng.range(1, 9), rng.range(1, 100)])); }
